@@ -268,6 +268,11 @@ example : ((reach false false 0 false [.upsert a (some 2)]).step (.upsert b (som
 example : specOf [.upsert a (some 2)] b.key = none := by decide
 example : (∃ k, (specOf [.upsert a none, .upsert a (some 0)] k).isSome) ∧
     specOf [.upsert a none, .upsert a (some 0)] a.key = some 0 := ⟨⟨a.key, by decide⟩, by decide⟩
+-- a continuation that never adds the removed key again (`C02_removed_never_selected`)
+example : ∀ op ∈ [Op.next, Op.serve (some a.key) (some .host), Op.upsert b none, Op.remove a], ¬ op.upsertsKey a.key := by
+  intro op h
+  simp only [List.mem_cons, List.not_mem_nil, or_false] at h
+  rcases h with rfl | rfl | rfl | rfl <;> simp [Op.upsertsKey, a, b, URL.key]
 -- a sticky request with a URL-rewriting handler is forwarded on a fresh object
 example : ((reach true true 0 false [.upsert a' none]).step (.serve (some a.key) (some .host))).2 = .forwarded a' true := by decide
 
